@@ -16,6 +16,8 @@ import (
 	"strings"
 	"time"
 
+	"golang.org/x/tools/go/ssa"
+
 	"verif/engine/symgo"
 )
 
@@ -39,6 +41,7 @@ type JobSpec struct {
 	QueryTimeoutMS   int `json:"query_timeout_ms"`
 	ThoroughOnly     bool `json:"thorough_only"`
 	Informational    bool `json:"informational"` // violations are reported as notes only
+	Confirm          string `json:"confirm,omitempty"` // "interpreter": counterexamples are confirmed by a solver-free concrete re-execution in the interpreter (schedules / redirected environment cannot be forced natively)
 	Scenario         json.RawMessage `json:"scenario,omitempty"` // tsgen
 }
 
@@ -513,6 +516,10 @@ func runSymgoJob(prog *symgo.Program, inst instance, tier string, workers int, s
 		}
 	}
 	jr.Extra = map[string]any{"samples": rep.Samples, "notes": rep.Notes}
+	if cfg.Params["preempt"] > 0 {
+		jr.Extra["schedule_exploration"] = map[string]any{"preemption_bound": cfg.Params["preempt"], "paths_with_a_preemption": rep.PreemptedPaths, "max_preemptions_on_a_path": rep.MaxPreempts,
+			"rule": "every sync / sync/atomic call, channel operation, select and go statement is a schedule point; while the bound lasts the engine forks over continuing and switching to each runnable goroutine; at blocking points and goroutine ends it forks over every runnable goroutine"}
+	}
 
 	// counterexamples: group by assertion, replay natively
 	byAssert := map[string][]symgo.PathResult{}
@@ -535,6 +542,21 @@ func runSymgoJob(prog *symgo.Program, inst instance, tier string, workers int, s
 			tries = tries[:3]
 		}
 		for i, v := range tries {
+			if js.Confirm == "interpreter" {
+				path, outcome, ok := rp.replayConcrete(prog, fn, cfg, js, inst, a, i, v)
+				jr.Replays++
+				lastNative = outcome
+				if ok {
+					name := a
+					if strings.HasPrefix(outcome, "assert-failed name=") {
+						name = strings.TrimPrefix(outcome, "assert-failed name=")
+					}
+					jr.Confirmed = append(jr.Confirmed, confirmedViolation{Job: inst.name, Assertion: name, Replay: path, Native: "solver-free concrete re-execution in the interpreter on the real SSA: " + outcome})
+					confirmed = true
+					break
+				}
+				continue
+			}
 			path, native, ok := rp.replay(js.Pkg, js.Fn, inst.name, a, i, v, inst.params)
 			jr.Replays++
 			lastNative = native
@@ -582,6 +604,8 @@ type replayFile struct {
 	Params    map[string]int64     `json:"params"`
 	Trail     string               `json:"trail,omitempty"`
 	Schedule  []int                `json:"schedule,omitempty"`
+	Choices   []int                `json:"choices,omitempty"`
+	Confirm   string               `json:"confirm,omitempty"`
 }
 
 func (r *replayer) ensureBin(pkg string) (string, error) {
@@ -646,6 +670,35 @@ func (r *replayer) replay(pkg, fn, job, assertion string, idx int, v symgo.PathR
 	os.WriteFile(path, b, 0o644)
 	native, ok = r.runNative(pkg, fn, path, v.Kind, assertion)
 	return
+}
+
+// replayConcrete confirms a counterexample by re-executing the harness in the
+// interpreter with concrete inputs and the recorded engine choices (no solver).
+func (r *replayer) replayConcrete(prog *symgo.Program, fn *ssa.Function, cfg symgo.Config, js JobSpec, inst instance, assertion string, idx int, v symgo.PathResult) (path, outcome string, ok bool) {
+	dir := filepath.Join(outRoot, "replays", r.prop)
+	os.MkdirAll(dir, 0o755)
+	safe := strings.NewReplacer("[", "_", "]", "", "/", "_", " ", "_", "*", "").Replace(inst.name + "-" + assertion)
+	path = filepath.Join(dir, fmt.Sprintf("%s-%d.json", safe, idx))
+	rf := replayFile{Property: r.prop, Job: inst.name, Pkg: js.Pkg, Harness: js.Fn, Assertion: assertion, Engine: v.Kind + ": " + v.Msg, Inputs: v.Inputs, Params: inst.params, Trail: v.Trail, Choices: v.Choices, Confirm: "interpreter"}
+	b, _ := json.MarshalIndent(rf, "", " ")
+	os.WriteFile(path, b, 0o644)
+	outcome, ok = concreteOutcome(prog, fn, cfg, v.Inputs, v.Choices, v.Kind, assertion)
+	return
+}
+
+func concreteOutcome(prog *symgo.Program, fn *ssa.Function, cfg symgo.Config, inputs []symgo.ReplayInput, choices []int, kind, assertion string) (string, bool) {
+	out := prog.ReplayConcrete(symgo.Job{Fn: fn, Cfg: cfg}, inputs, choices)
+	switch out.Kind {
+	case "violation":
+		name := ""
+		if out.Violation != nil {
+			name = out.Violation.Name
+		}
+		return "assert-failed name=" + name, kind == "violation" || kind == "panic" || kind == "fatal" || kind == "deadlock"
+	case "panic", "fatal", "deadlock":
+		return out.Kind + " " + truncate(out.Msg, 200), kind == out.Kind || kind == "panic" || kind == "fatal"
+	}
+	return "no violation in the concrete re-execution (" + out.Kind + " " + truncate(out.Msg, 200) + ")", false
 }
 
 func (r *replayer) runNative(pkg, fn, path, kind, assertion string) (string, bool) {
@@ -722,6 +775,39 @@ func runReplayCmd(prop, path string) int {
 	defer r.cleanup()
 	if len(rf.Schedule) > 0 {
 		return replayTsgen(rf, path)
+	}
+	if rf.Confirm == "interpreter" {
+		ov, err := symgo.OverlayFromDir(filepath.Join(verifRoot, "harness"), repoRoot, false)
+		if err != nil {
+			fmt.Println(err)
+			return 2
+		}
+		prog, err := symgo.Load(symgo.LoadOptions{Dir: repoRoot, Patterns: []string{"./..."}, Overlay: ov, Tags: []string{"verif"}})
+		if err != nil {
+			fmt.Println("cannot load:", err)
+			return 0
+		}
+		fn := prog.FindFunc(pkgOf(prog, rf.Pkg), rf.Harness)
+		if fn == nil {
+			fmt.Println("harness not found")
+			return 0
+		}
+		cfg := symgo.DefaultConfig()
+		for k, v := range rf.Params {
+			cfg.Params[k] = v
+		}
+		kind := "violation"
+		if i := strings.Index(rf.Engine, ":"); i > 0 {
+			kind = rf.Engine[:i]
+		}
+		outcome, ok := concreteOutcome(prog, fn, cfg, rf.Inputs, rf.Choices, kind, rf.Assertion)
+		fmt.Printf("interpreter outcome: %s\n", outcome)
+		if ok {
+			fmt.Printf("VIOLATION property=%s replay=%s\n", prop, path)
+			return 1
+		}
+		fmt.Println("counterexample does not reproduce on the current tree")
+		return 0
 	}
 	kind := "violation"
 	if i := strings.Index(rf.Engine, ":"); i > 0 {
